@@ -72,6 +72,7 @@ func Main() {
 		repoDir  = flag.String("repo", "/repo", "repository directory")
 		verifDir = flag.String("verif", "/verif", "verif directory")
 		one      = flag.Int("case", -1, "run a single case in-process")
+		count    = flag.Int("count", 0, "internal: number of cases of this worker run (0 = all)")
 	)
 	flag.Parse()
 
@@ -89,7 +90,7 @@ func Main() {
 	case *one >= 0:
 		os.Exit(runSingle(p, env, *one))
 	case *worker >= 0:
-		os.Exit(runWorker(p, env, *worker, *nworkers, *workDir, *start))
+		os.Exit(runWorker(p, env, *worker, *nworkers, *workDir, *start, *count))
 	default:
 		os.Exit(runParent(p, env, *nworkers))
 	}
@@ -153,7 +154,7 @@ func runReplay(p *Prop, env *Env, path string) int {
 	return runSingle(p, env, v.Index)
 }
 
-func runWorker(p *Prop, env *Env, wnum, nworkers int, workDir string, start int) int {
+func runWorker(p *Prop, env *Env, wnum, nworkers int, workDir string, start, count int) int {
 	if p.Setup != nil {
 		p.Setup(env)
 	}
@@ -184,6 +185,9 @@ func runWorker(p *Prop, env *Env, wnum, nworkers int, workDir string, start int)
 		}
 		_, _ = journal.WriteAt(s, 0)
 		runCase(p, env, w, idx)
+		if count > 0 && int(w.cases) >= count {
+			break
+		}
 	}
 	_, _ = journal.WriteAt([]byte("done                "), 0)
 
@@ -351,9 +355,14 @@ func runParent(p *Prop, env *Env, nworkers int) int {
 	}
 	wg.Wait()
 
+	violFiles := runCold(p, env, self, workDir, total, m)
+
 	// Collect streamed violations.
 	for wn := 0; wn < nworkers; wn++ {
-		f, err := os.Open(filepath.Join(workDir, fmt.Sprintf("w%d.viol.jsonl", wn)))
+		violFiles = append(violFiles, filepath.Join(workDir, fmt.Sprintf("w%d.viol.jsonl", wn)))
+	}
+	for _, vf := range violFiles {
+		f, err := os.Open(vf)
 		if err != nil {
 			continue
 		}
@@ -373,6 +382,112 @@ func runParent(p *Prop, env *Env, nworkers int) int {
 	}
 
 	return report(p, env, m, time.Since(t0))
+}
+
+// coldIndexes returns the cases that are run once more in fresh processes.
+func coldIndexes(p *Prop, env *Env, total int) (out []int) {
+	if p.Cold != nil {
+		out = append(out, p.Cold(env.Tier)...)
+	}
+	n := 24
+	if env.Tier == Thorough {
+		n = 160
+	}
+	seen := map[int]bool{}
+	for _, i := range out {
+		seen[i] = true
+	}
+	for j := 0; j < n && len(seen) < total; j++ {
+		i := int(CaseSeed(env.Seed, p.ID+"/cold", j) % int64(total))
+		if !seen[i] {
+			seen[i] = true
+			out = append(out, i)
+		}
+	}
+
+	return out
+}
+
+// runCold runs each cold case as the only case of a process of its own, the
+// way a worker runs its cases, and merges what they observed.  It returns the
+// violation logs of those processes.
+func runCold(p *Prop, env *Env, self, workDir string, total int, m *Merged) (violFiles []string) {
+	idxs := coldIndexes(p, env, total)
+	var mu sync.Mutex
+	var wg sync.WaitGroup
+	sem := make(chan struct{}, runtime.NumCPU())
+	for j, idx := range idxs {
+		dir := filepath.Join(workDir, fmt.Sprintf("cold%d", j))
+		if os.MkdirAll(dir, 0o755) != nil {
+			continue
+		}
+		violFiles = append(violFiles, filepath.Join(dir, "w0.viol.jsonl"))
+		wg.Add(1)
+		sem <- struct{}{}
+		go func(idx int, dir string) {
+			defer wg.Done()
+			defer func() { <-sem }()
+			stderrPath := filepath.Join(dir, "stderr")
+			ef, _ := os.Create(stderrPath)
+			cmd := exec.Command(self,
+				"-prop", p.ID, "-tier", string(env.Tier), "-seed", strconv.FormatInt(env.Seed, 10),
+				"-worker", "0", "-nworkers", "1", "-work", dir, "-start", strconv.Itoa(idx), "-count", "1",
+				"-repo", env.RepoDir, "-verif", env.VerifDir)
+			cmd.Stdout, cmd.Stderr = ef, ef
+			cmd.Env = append(os.Environ(), "VERIF_WORKER=1")
+			done := make(chan error, 1)
+			if err := cmd.Start(); err != nil {
+				_ = ef.Close()
+
+				return
+			}
+			go func() { done <- cmd.Wait() }()
+			var werr error
+			timedOut := false
+			select {
+			case werr = <-done:
+			case <-time.After(watchdogFor(env.Tier)):
+				timedOut = true
+				_ = cmd.Process.Kill()
+				werr = <-done
+			}
+			_ = ef.Close()
+			mu.Lock()
+			defer mu.Unlock()
+			rb, rerr := os.ReadFile(filepath.Join(dir, fmt.Sprintf("w0.result.%d.json", idx)))
+			var res workerResult
+			if rerr == nil && werr == nil && json.Unmarshal(rb, &res) == nil {
+				// Only what is specific to the cold run is merged: the case itself
+				// has been counted by the worker that ran it in sequence.
+				for k, v := range res.SigCount {
+					m.SigCount[k] += v
+				}
+				for k, v := range res.Inconclusive {
+					m.Inconclusive[k] += v
+				}
+				m.Events["cases_run_once_more_as_the_first_case_of_a_fresh_process"]++
+
+				return
+			}
+			if timedOut {
+				m.Inconclusive["watchdog"]++
+				m.Notes = append(m.Notes, fmt.Sprintf("fresh process for case %d: wall-clock watchdog fired (inconclusive)", idx))
+
+				return
+			}
+			tail := tailFile(stderrPath, 60)
+			v := &Violation{
+				Property: p.ID, Seed: env.Seed, Tier: env.Tier, Index: idx,
+				Sig: "process-death:" + deathSite(tail),
+				Msg: fmt.Sprintf("a fresh process died (%v) while executing case %d as its first case\n%s", werr, idx, tail),
+			}
+			m.Violations = append(m.Violations, v)
+			m.SigCount[v.Sig]++
+		}(idx, dir)
+	}
+	wg.Wait()
+
+	return violFiles
 }
 
 func mergeResult(m *Merged, r *workerResult) {
